@@ -15,7 +15,7 @@ using namespace sim;
 static int trace = -1;
 static inline void acc(const void* p, size_t n, bool w, void* pc, bool store = false) {
   if (!inTask()) return;
-  if (isStackAddr(p)) return;
+  if (isOwnStackAddr(p)) return;
   static uint64_t traceSeed = 0; static unsigned long lo = 0, hi = ~0UL;
   if (trace < 0) { trace = getenv("SIM_TRACE") ? 1 : 0; if (getenv("SIM_TRACE_SEED")) traceSeed = strtoull(getenv("SIM_TRACE_SEED"), 0, 10); if (getenv("SIM_TRACE_RANGE")) sscanf(getenv("SIM_TRACE_RANGE"), "%lu-%lu", &lo, &hi); }
   if (trace && (!traceSeed || traceSeed == currentSeed()) && stepNo() >= lo && stepNo() <= hi) fprintf(stderr, "T step=%llu task=%d %s%zu addr=%p pc=%p\n", (unsigned long long)stepNo(), self(), w ? "w" : "r", n, p, pc);         // own-stack traffic is thread-private: neither checked nor a yield point
